@@ -3,7 +3,7 @@
    All statements are about the model instantiated with the Unicode tables of the Go toolchain
    (Consts.v): go_is_letter, go_is_number, go_to_lower. *)
 From Coq Require Import List Bool NArith.
-From C11 Require Import Model ModelDoc ModelMulti ModelLex ModelWire CaseDefs ProofsText ProofsPath ProofsSpec ProofsGo ProofsLex ProofsLexGo ProofsWire ProofsMulti.
+From C11 Require Import Model ModelDoc ModelMulti ModelLex ModelWire CaseDefs ProofsText ProofsPath ProofsSpec ProofsGo ProofsLex ProofsLexGo ProofsWire ProofsMulti ProofsMultiKw.
 Open Scope N_scope.
 
 (* Lower-casing agrees on both sides for EVERY byte string (valid UTF-8 or not, including runes whose
@@ -644,3 +644,39 @@ Print Assumptions C11_inplace_buffer_keeps_segments.
    the re-appended tail; (b2) for each tokenizer, that its tokens depend on the value only through boundaries,
    lower-cased runes and rune classes (needs is_letter / is_number invariant under to_lower, checkable over the dumped
    table), and that path_loop / text_loop leave buffers of the above form. *)
+
+(* First complete instance of the invariant (partial: KEYWORD and EXISTS titles, value within every keyword title's size
+   limit so that no cut occurs; EVERY byte string, any title order, case-sensitive or not, partial indexing on or off):
+   the tokens the indexer emits for the titles of a multi-type field — threading the buffer that earlier titles
+   lower-cased in place or left half converted — are exactly every title's tokenizer applied to the ORIGINAL value.
+   Missing for the full C11_multitype_inplace_invariant: text and path titles (their loops' buffers and their
+   dependence on boundaries / classes; C11_rune_classes_invariant_under_lowercase below is the class half) and values
+   beyond a limit (cut inside a rune). *)
+Theorem C11_multitype_inplace_invariant_keyword_within_limits :
+  forall c all key v,
+    (forall title ty mx, In (title, ty, mx) all -> has_tokenizer ty = true ->
+       (ty = TyKeyword /\ (length v <= limit_of (max_tok c) mx)%nat) \/ ty = TyExists) ->
+    index_types go_is_letter go_is_number go_to_lower c all key (Some v) =
+    index_types_pure go_is_letter go_is_number go_to_lower c all key v.
+Proof. exact go_multitype_kw_within_limits_in. Qed.
+Print Assumptions C11_multitype_inplace_invariant_keyword_within_limits.
+
+(* unicode.IsLetter / IsNumber / IsSpace of the Go toolchain are invariant under unicode.ToLower, for every rune
+   (checked over the dumped lower-case table): word boundaries cannot move when a buffer is lower-cased *)
+Theorem C11_rune_classes_invariant_under_lowercase :
+  forall r,
+    go_is_letter (go_to_lower r) = go_is_letter r /\ go_is_number (go_to_lower r) = go_is_number r /\
+    go_is_space (go_to_lower r) = go_is_space r.
+Proof. exact go_class_lower. Qed.
+Print Assumptions C11_rune_classes_invariant_under_lowercase.
+
+(* hypotheses witnessed: two keyword titles and an exists title on a value with a length-changing rune (U+0130), a
+   length-preserving one (U+00D6) and a stray byte; the second title sees the half-converted buffer *)
+Example C11_multitype_keyword_nonvacuous :
+  let c := ICfg false false 72 32768 in
+  let all := [([], TyKeyword, 0); ([107; 46; 116], TyKeyword, 20); ([107; 46; 101], TyExists, 0)] in
+  let v := [65; 195; 150; 196; 176; 255; 66] in
+  index_types go_is_letter go_is_number go_to_lower c all [107] (Some v) =
+  index_types_pure go_is_letter go_is_number go_to_lower c all [107] v /\
+  snd (kw_tokenize go_to_lower c 0 v) = [97; 195; 182; 196; 176; 255; 66].
+Proof. exact multitype_keyword_nonvacuous. Qed.
